@@ -72,6 +72,19 @@ MUTATIONS = [
  ('e15', 'C13', 'src/sampler.rs', r's/                    Ok\(\(None, trace\)\) => return SamplerWaitResult::Trace\(trace\),\n                    Err\(err\) => return SamplerWaitResult::Err\(err, None\),/                    Err(err) => return SamplerWaitResult::Err(err, None),\n                    Ok((None, trace)) => return SamplerWaitResult::Trace(trace),/', 'EQUIVALENT (match arms reordered)'),
  ('m50', 'C17', 'src/math/cpu_math.rs', r's/            \.for_each\(\|\(s, &v\)\| \*s \*= v - 1\.0\);\n\n        \/\/ dest = rhs \+ U \* scratch/            .for_each(|(s, \&v)| *s *= v);\n\n        \/\/ dest = rhs + U * scratch/', 'apply_lowrank_transform scales the projection by vals instead of vals - 1'),
  ('m51', 'C17', 'src/math/cpu_math.rs', r's/let inner_prod = vecs \* \(vals\.as_diagonal\(\) \* \(&trafo\) - \(&trafo\)\) \+ rhs;\n        let scaled = stds\.as_diagonal\(\) \* inner_prod;/let inner_prod = vecs * (vals.as_diagonal() * (\&trafo) - (\&trafo)) + rhs;\n        let scaled = inner_prod;/', 'array_mult_eigs forgets the outer diagonal scaling'),
+ ('m52', 'C06', 'src/adapt_strategy.rs', r's/let is_last = draw == self\.num_tune - 1;\n        self\.step_size\.update_stepsize\(rng, hamiltonian, is_last\);\n        Ok\(\(\)\)\n    \}\n\n    fn new_collector/let is_last = draw != self.num_tune - 1;\n        self.step_size.update_stepsize(rng, hamiltonian, is_last);\n        Ok(())\n    }\n\n    fn new_collector/', 'final window: the averaged step is installed on every draw except the last tuning draw (found by the mutation campaign)'),
+ ('m53', 'C02', 'src/dynamics/transformed_hamiltonian.rs', r's/let epsilon = \(sign as f64\) \* self\.step_size \* step_size_factor;/let epsilon = (sign as f64) * self.step_size \/ step_size_factor;/', 'leapfrog divides by the step-size factor (mutation campaign)'),
+ ('m54', 'C18', 'src/dynamics/transformed_hamiltonian.rs', r's/let nu = \(\(2\.0 \* half_step \/ momentum_decoherence_length\)\.exp_m1\(\) \/ n\)\.sqrt\(\);/let nu = ((2.0 * half_step * momentum_decoherence_length).exp_m1() \/ n).sqrt();/', 'microcanonical refresh noise scale uses h*L instead of h\/L (mutation campaign)'),
+ ('m55', 'C07', 'src/stepsize/adapt.rs', r's/                dir,\n                1\.0,\n                state\.point\(\)\.initial_energy\(\),/                dir,\n                1.1,\n                state.point().initial_energy(),/', 'step-size search measures the acceptance of a step 10% larger than the one it adopts (mutation campaign)'),
+ ('m56', 'C14', 'src/storage/hashmap.rs', r's/if first_error\.is_none\(\) \{/if first_error.is_some() {/', 'HashMap trace assembly never records a per-chain error (mutation campaign)'),
+ ('m57', 'C08', 'src/transform/diagonal.rs', r's/math\.axpy\(position, &mut self\.mean, 1\.0\);/math.axpy(position, \&mut self.mean, 2.0);/', 'initial mass matrix: mean uses twice the position (mutation campaign)'),
+ ('m58', 'C05', 'src/external_adapt_strategy.rs', r's/            if !math\.array_all_finite\(point\.gradient\(\)\) \{\n                return;\n            \}\n\n            self\.draws\.push\(math\.copy_array\(point\.position\(\)\)\);\n            self\.grads\.push\(math\.copy_array\(point\.gradient\(\)\)\);\n            self\.logps\.push\(point\.logp\(\)\);\n        \}\n    \}\n\n    fn register_draw/            if math.array_all_finite(point.gradient()) {\n                return;\n            }\n\n            self.draws.push(math.copy_array(point.position()));\n            self.grads.push(math.copy_array(point.gradient()));\n            self.logps.push(point.logp());\n        }\n    }\n\n    fn register_draw/', 'flow collector keeps exactly the points with a non-finite gradient (mutation campaign)'),
+ ('m59', 'C18', 'src/mclmc.rs', r's/                    remaining -= 1;\n/                    remaining -= 0;\n/', 'the step loop of the MCLMC kernel never counts a step down (does not terminate; mutation campaign)'),
+ ('m60', 'C02', 'src/transform/diagonal.rs', r's/        self\.logdet = math\.array_sum_ln\(&self\.inv_stds\);\n        self\.id \+= 1;\n    \}\n\n    pub\(crate\) fn logdet/        self.logdet = math.array_sum_ln(\&self.inv_stds);\n        self.id += 0;\n    }\n\n    pub(crate) fn logdet/', 'set_transform does not bump the id (mutation campaign)'),
+ ('m61', 'C08', 'src/transform/low_rank.rs', r's/self\.logdet = inner\.logdet\(\) \+ self\.diag\.logdet\(\);/self.logdet = inner.logdet() - self.diag.logdet();/', 'low-rank update subtracts the diagonal log-determinant (mutation campaign)'),
+ ('m62', 'C08', 'src/transform/low_rank.rs', r's/        self\.inner = Some\(inner\);\n        self\.id \+= 1;/        self.inner = Some(inner);\n        self.id += 0;/', 'low-rank update does not bump the id (mutation campaign)'),
+ ('m63', 'C08', 'src/transform/low_rank.rs', r's/vals\.iter_mut\(\)\.for_each\(\|x\| \*x = x\.recip\(\)\);/vals.iter_mut().for_each(|x| *x = x.sqrt().recip());/', 'InnerMatrix::new stores lambda^(-1\/4) as the inverse square root'),
+ ('m64', 'C18', 'src/mclmc.rs', r's/        self\.draw_count \+= 1;\n        self\.state = state;\n        self\.last_info = Some\(info\);\n        Ok\(\(position, progress\)\)/        self.draw_count -= 1;\n        self.state = state;\n        self.last_info = Some(info);\n        Ok((position, progress))/', 'MclmcChain::draw counts draws down (mutation campaign)'),
  ('e01', 'C18', 'src/mclmc.rs', r's/&& self.draw_count == self.switch_draw/&& self.draw_count >= self.switch_draw/', 'EQUIVALENT on reachable states: must not be flagged'),
  ('e02', 'C08', 'src/math/cpu_math.rs', r's/\*mean \+= diff \* diff_scale;\n                \*var \+= diff \* diff;/*mean += diff * diff_scale;\n                *var += diff * (x - *mean);/', 'EQUIVALENT for the property (ratio of variances unchanged): must not be flagged'),
 ]
